@@ -1,0 +1,119 @@
+//go:build verif
+// +build verif
+
+package ipfscluster
+
+// This file is only compiled with the "verif" build tag. It exports thin
+// wrappers around unexported logic so that an external verification harness
+// can drive the real code with injected components. It adds code only and
+// changes nothing when the tag is off.
+
+import (
+	"context"
+
+	"github.com/ipfs/ipfs-cluster/api"
+
+	cid "github.com/ipfs/go-cid"
+	host "github.com/libp2p/go-libp2p-core/host"
+	peer "github.com/libp2p/go-libp2p-core/peer"
+	rpc "github.com/libp2p/go-libp2p-gorpc"
+)
+
+// VerifComponents carries what VerifNewCluster injects into a Cluster.
+type VerifComponents struct {
+	ID        peer.ID
+	Config    *Config
+	Host      host.Host
+	Consensus Consensus
+	IPFS      IPFSConnector
+	Tracker   PinTracker
+	Monitor   PeerMonitor
+	Allocator PinAllocator
+	Informers []Informer
+	RPCClient *rpc.Client
+}
+
+// VerifNewCluster assembles a Cluster without starting background
+// goroutines, libp2p services or the RPC server.
+func VerifNewCluster(ctx context.Context, vc VerifComponents) *Cluster {
+	ctx, cancel := context.WithCancel(ctx)
+	return &Cluster{
+		ctx:       ctx,
+		cancel:    cancel,
+		id:        vc.ID,
+		config:    vc.Config,
+		host:      vc.Host,
+		consensus: vc.Consensus,
+		ipfs:      vc.IPFS,
+		tracker:   vc.Tracker,
+		monitor:   vc.Monitor,
+		allocator: vc.Allocator,
+		informers: vc.Informers,
+		rpcClient: vc.RPCClient,
+		alerts:    []api.Alert{},
+		doneCh:    make(chan struct{}),
+		readyCh:   make(chan struct{}),
+	}
+}
+
+// VerifCancel cancels the cluster context.
+func (c *Cluster) VerifCancel() { c.cancel() }
+
+// VerifAllocate calls allocate().
+func (c *Cluster) VerifAllocate(ctx context.Context, hash cid.Cid, currentPin *api.Pin, rplMin, rplMax int, blacklist []peer.ID, prioritylist []peer.ID) ([]peer.ID, error) {
+	return c.allocate(ctx, hash, currentPin, rplMin, rplMax, blacklist, prioritylist)
+}
+
+// VerifPin calls pin().
+func (c *Cluster) VerifPin(ctx context.Context, pin *api.Pin, blacklist []peer.ID) (*api.Pin, bool, error) {
+	return c.pin(ctx, pin, blacklist)
+}
+
+// VerifRepinFromPeer calls repinFromPeer().
+func (c *Cluster) VerifRepinFromPeer(ctx context.Context, p peer.ID, pin *api.Pin) {
+	c.repinFromPeer(ctx, p, pin)
+}
+
+// VerifVacatePeer calls vacatePeer().
+func (c *Cluster) VerifVacatePeer(ctx context.Context, p peer.ID) {
+	c.vacatePeer(ctx, p)
+}
+
+// VerifAlertsHandler runs alertsHandler() until the context is cancelled or
+// the handler returns.
+func (c *Cluster) VerifAlertsHandler() { c.alertsHandler() }
+
+// VerifIsClosest builds the distance checker as the alert handler and
+// StateSync do and asks it about a cid.
+func (c *Cluster) VerifIsClosest(ctx context.Context, exclude peer.ID, ci cid.Cid) (bool, error) {
+	d, err := c.distances(ctx, exclude)
+	if err != nil {
+		return false, err
+	}
+	return d.isClosest(ci), nil
+}
+
+// VerifIsReplicationFactorValid calls isReplicationFactorValid().
+func VerifIsReplicationFactorValid(rplMin, rplMax int) error {
+	return isReplicationFactorValid(rplMin, rplMax)
+}
+
+// VerifNewRPCServer calls newRPCServer().
+func VerifNewRPCServer(c *Cluster) (*rpc.Server, error) { return newRPCServer(c) }
+
+// VerifSetRPC installs the server and client on the cluster.
+func (c *Cluster) VerifSetRPC(s *rpc.Server, cl *rpc.Client) {
+	c.rpcServer = s
+	c.rpcClient = cl
+}
+
+// VerifConvertKey exposes the hash used for distances.
+func VerifConvertKey(s string) [32]byte { return convertKey(s) }
+
+// VerifPushInformerMetrics runs pushInformerMetrics().
+func (c *Cluster) VerifPushInformerMetrics(ctx context.Context, informer Informer) {
+	c.pushInformerMetrics(ctx, informer)
+}
+
+// VerifPushPingMetrics runs pushPingMetrics().
+func (c *Cluster) VerifPushPingMetrics(ctx context.Context) { c.pushPingMetrics(ctx) }
